@@ -665,7 +665,8 @@ class World:
         cur = list(self.mods[irl])
         n = len(cur)
         op = force["op"] if force else rnd.choice(["append", "insert", "extend", "iadd", "delitem",
-                         "delslice", "setitem", "setslice", "pop", "pop_i",
+                         "delslice", "setitem", "setslice", "setslice",
+                         "pop", "pop_i",
                          "remove", "clear", "reverse", "index", "count",
                          "getslice", "contains", "iter", "reversed",
                          "getitem", "iter_across_edit", "iter_across_edit",
@@ -760,6 +761,20 @@ class World:
                 rnd.randint(0, 3))))
             if xs and rnd.random() < 0.15:
                 xs.insert(rnd.randint(0, len(xs)), rnd.choice(xs))  # twice
+            if not force and rnd.random() < 0.5:
+                # values taken from the assigned slots themselves: a
+                # reordering, or one of them given more than once
+                s = rnd.choice([slice(None, None, 2), slice(None, None, -1),
+                                slice(1, None, 2), slice(None, None, -2),
+                                slice(None), s, s])
+                slots = list(cur[s])
+                if rnd.random() < 0.5:
+                    xs = list(slots)
+                    rnd.shuffle(xs)
+                elif slots:
+                    xs = [rnd.choice(slots) for _ in slots]
+                if slots:
+                    self.ctx.count("c16:list_setslice_values_from_own_slots")
             if force:
                 s = rnd.choice([slice(None), slice(None), slice(
                     rnd.randint(0, n), None), slice(None, rnd.randint(0, n)),
@@ -1385,7 +1400,8 @@ WEIGHTS = {
     "C03": {"twin_replace": 2, "set_parent": 5, "set_mutation": 6, "list": 4, "ctor": 3,
             "symbol": 1, "attr": 1, "load": 1, "set_query": 1,
             "pingpong": 3, "bulk": 1},
-    "C04": {"twin_replace": 2, "set_parent": 6, "set_mutation": 5, "list": 3, "ctor": 4,
+    "C04": {"twin_replace": 2, "set_parent": 6, "set_mutation": 5, "list": 5,
+            "ctor": 4,
             "symbol": 1, "attr": 4, "load": 1, "set_query": 1,
             "pingpong": 3, "bulk": 1},
     "C10": {"set_parent": 4, "set_mutation": 4, "list": 2, "ctor": 3,
